@@ -1,5 +1,6 @@
 import Gpc.Model.Proto
 import Gpc.Model.CaseFull
+import Gpc.Model.Compare
 namespace Gpc.Driver
 open Gpc.Proto Gpc.CaseFull Gpc.Utf
 
@@ -9,8 +10,30 @@ def encAll (cps : List Nat) : List UInt8 := cps.flatMap encodeU8
 
 /-- `cf up|lo|cap <loc> <cap> <hex>`, `cf sup|slo|sti <cap> <hex>`: the result string (the harness adds scratch
 and heap figures after it, which C15's model answers) -/
+def decodeHex (h : String) : Option (List Nat) :=
+  match parseHex h with
+  | none => none
+  | some s => decodeAll s.length s
+
+def decodeHexes : List String → Option (List (List Nat))
+  | [] => some []
+  | h :: t => do let a ← decodeHex h; let r ← decodeHexes t; pure (a :: r)
+
 def cfStep (toks : List String) : String :=
   match toks with
+  | "cmp" :: flags :: loc :: [h1, h2] =>
+    match decodeHex h1, decodeHex h2 with
+    | some a, some b =>
+      let f := flags.toList
+      toString (Compare.compare (f.contains 'f') (f.contains 'c') (f.contains 'r') (locOf loc) a b)
+    | _, _ => "invalid"
+  | "sort" :: flags :: loc :: hs =>
+    match decodeHexes hs with
+    | some strs =>
+      let f := flags.toList
+      let r := Compare.sort (f.contains 'f') (f.contains 'c') (f.contains 'r') (locOf loc) strs
+      if r.isEmpty then "-" else ",".intercalate (r.map fun s => toHex (encAll s))
+    | none => "invalid"
   | [op, loc, _cap, h] =>
     match parseHex h with
     | none => "bad-op"
